@@ -475,6 +475,31 @@ func (s *Solver) Model(vars []*Term) map[string]*big.Int {
 	if len(vars) == 0 {
 		return m
 	}
+	if s.name == "z3" || s.name == "z3-new" {
+		// (eval x) is ~50x faster than (get-value (x)) in z3's incremental mode
+		const chunk = 64
+		for i := 0; i < len(vars); i += chunk {
+			j := i + chunk
+			if j > len(vars) {
+				j = len(vars)
+			}
+			for _, v := range vars[i:j] {
+				ref := s.pr.Ref(v)
+				s.flushDefs()
+				s.send("(eval " + ref + " :completion true)")
+			}
+			for _, v := range vars[i:j] {
+				txt := s.readSexp()
+				toks := tokenize("((x " + txt + "))")
+				one := map[string]*big.Int{}
+				parseModel(strings.Join(toks, " "), []*Term{v}, one)
+				if val, ok := one[v.name]; ok {
+					m[v.name] = val
+				}
+			}
+		}
+		return m
+	}
 	const chunk = 200
 	for i := 0; i < len(vars); i += chunk {
 		j := i + chunk
@@ -524,6 +549,9 @@ func (s *Solver) readSexp() string {
 		sb.WriteString(" ")
 		if started && depth <= 0 {
 			return sb.String()
+		}
+		if !started && strings.TrimSpace(l) != "" {
+			return sb.String() // a bare atom (answer of eval)
 		}
 	}
 }
